@@ -705,6 +705,21 @@ def _check_peak_provenance(prog: Program, res: Result):
         "cl": "self.hourly_rejection_loads",
         "hl": "self.hourly_extraction_loads",
     }
+    # single writer: the month's peak and peak day are the ones computed here from the month's own window - nothing else in the
+    # class overwrites an element (appending month m's own values for month m + 12 is the replication the horizon needs)
+    split_name = fi.name
+    for q2, f2 in sorted(prog.funcs.items()):
+        if f2.module != fi.module or f2.cls != fi.cls or f2 is fi or f2.name == "__init__":
+            continue
+        for n2 in ast.walk(f2.node):
+            tgts = n2.targets if isinstance(n2, ast.Assign) else ([n2.target] if isinstance(n2, ast.AugAssign) else [])
+            for t2 in tgts:
+                base = attr_chain(t2.value) if isinstance(t2, ast.Subscript) else attr_chain(t2)
+                if base in ("self.monthly_peak_cl", "self.monthly_peak_hl", "self.monthly_peak_cl_day", "self.monthly_peak_hl_day"):
+                    res.ob("R07.6", f"{f2.name}: does not overwrite {base}", False, prog.loc(f2, n2))
+                    res.violation("R07.6", f"overwritten|{f2.name}|{base}", prog.loc(f2, n2), q2,
+                                  f"'{norm_stmt(n2)[:90]}' overwrites {base.split('.')[-1]}, which {split_name} computed from the month's own hours: the pulse magnitude (and the replicated months, the monthly "
+                                  "summary) then carry a value that is not the month's hourly peak")
     for tag, series in spec.items():
         pk, dy = f"self.monthly_peak_{tag}", f"self.monthly_peak_{tag}_day"
         sp, sd = assigns.get(pk), assigns.get(dy)
@@ -760,6 +775,9 @@ _IPF_OLD = '            ipf = [False] * (self.end_month + 1)\n            for i 
 _PRE_OLD = '        hourly_rejection_loads = self.hourly_rejection_loads[hours_in_year - HRS_IN_DAY :] + self.hourly_rejection_loads\n        hourly_extraction_loads = (\n            self.hourly_extraction_loads[hours_in_year - HRS_IN_DAY :] + self.hourly_extraction_loads\n        )\n'
 
 VARIANTS = [
+    Variant("the previous day's larger load is written back into the month's peak (seeded C07_g)", "break",
+            [(GL, "            current_month_peak_cl = self.monthly_peak_cl[i] if abs(load_diff) < tol else max(current_two_day_cl_load)\n",
+              "            if abs(load_diff) >= tol:\n                self.monthly_peak_cl[i] = max(current_two_day_cl_load)\n            current_month_peak_cl = self.monthly_peak_cl[i]\n")], "R07.6"),
     Variant("cooling pulse guarded by peak >= 0 (zero pulse in a month without rejection)", "break",
             [(GL, "                    # monthly average conditions before cooling peak\n                    if self.monthly_peak_cl[i] > 0 and ipf[i]:\n                        # last_avg_hour = first_hour_cooling_peak - 1 JDS corrected 20200604\n                        last_avg_hour = cooling_peak_start",
               "                    # monthly average conditions before cooling peak\n                    if self.monthly_peak_cl[i] >= 0 and ipf[i]:\n                        # last_avg_hour = first_hour_cooling_peak - 1 JDS corrected 20200604\n                        last_avg_hour = cooling_peak_start")], "R07.1"),
